@@ -676,7 +676,8 @@ def _load_paths(ctx, mod, t: Optional[str], w: Optional[int], **kw) -> List[Path
     inline = dict(kw.pop("inline", None) or {})
     for c in ast.walk(load):
         if isinstance(c, ast.Call) and isinstance(c.func, ast.Name) and mod.has(c.func.id) and c.args and \
-                all(ast.unparse(a).endswith((".wire_type", ".proto_type")) for a in c.args):
+                any(isinstance(x, ast.FunctionDef) for x in mod.defs[c.func.id]) and \
+                {"wire_type", "proto_type"} <= {ast.unparse(a).rsplit(".", 1)[-1] for a in c.args}:
             inline[c.func.id] = (mod, mod.func(c.func.id))
     kw["inline"] = inline
     assume = dict(kw.pop("assume", None) or {})
@@ -689,6 +690,7 @@ def _load_paths(ctx, mod, t: Optional[str], w: Optional[int], **kw) -> List[Path
 
 def rule_T4(ctx) -> None:
     """map entries: key = field 1, value = field 2 on both sides"""
+    rule_T4b(ctx)
     mod = ctx.repo.mod(M_INIT)
     dump = mod.func("Message.dump")
     is_dict = ("call", N("isinstance"), (VALUE, N("dict")), ())
@@ -749,6 +751,40 @@ def rule_T4(ctx) -> None:
         ctx.refuted("T4", "load:map-entry-store", f"{sorted(map(str, stores))}", mod.loc(mod.func("Message.load")), f"map entries stored as {sorted(map(str, stores))}")
 
 
+def rule_T4b(ctx, rule: str = "T4") -> None:
+    """a map entry is always written: its key and value may both encode to nothing (e.g. {"": ""}), the entry is still present"""
+    mod = ctx.repo.mod(M_INIT)
+    is_dict = ("call", N("isinstance"), (VALUE, N("dict")), ())
+    is_list = ("call", N("isinstance"), (VALUE, N("list")), ())
+    # (the sizer's agreement with dump on this point is decided by C09/L1's sibling comparison)
+    for q, callee in (("Message.dump", "_serialize_single"),):
+        fn = mod.func(q)
+        rets = [n for n in ast.walk(fn) if isinstance(n, ast.Return) and n.value is not None]
+        if q.endswith("__len__") and len(rets) == 1 and ast.unparse(rets[0].value) in ("len(bytes(self))",):
+            ctx.proved(rule, f"{q.split('.')[-1]}:map-entry-always-emitted", mod.loc(fn), "delegates to dump")
+            continue
+        paths = interp_for(mod, bindings=type_binding("map"), assume={is_dict: True, is_list: False}).run(fn)
+        ctx.count(len(paths))
+        seen = []
+        for p in paths:
+            for e in p.calls(callee):
+                if e.depth or len(e.loops) < 2:
+                    continue
+                a = e.data[2]
+                if len(a) >= 2 and a[1] == C("map"):
+                    seen.append(dict(e.data[3]).get("serialize_empty", C(False)))
+        name = f"{q.split('.')[-1]}:map-entry-always-emitted"
+        if not seen:
+            ctx.inconclusive(rule, name, "map entry emission not recognised", mod.loc(fn))
+        elif all(x == C(True) for x in seen):
+            ctx.proved(rule, name, mod.loc(fn))
+        else:
+            ctx.refuted(rule, name, "entry-skipped-when-empty", mod.loc(fn),
+                        f"{q.split('.')[-1]} writes a map entry through {callee}(number, 'map', key + value) without serialize_empty=True: when key and value both encode to nothing "
+                        "(length-delimited key and value at their defaults, e.g. {'': ''} or {'': Msg()}) the entry is dropped and the map loses an element on the wire",
+                        "bytes(M(ss={'': ''})) == b''")
+
+
 def _entry_part(s: Sym) -> str:
     # k / v of `for k, v in value.items()`
     if s[0] == "item" and s[1][0] == "elem":
@@ -806,6 +842,12 @@ def rule_T5(ctx) -> None:
                     "Outer().parse(b'\\x0a\\x00') then bytes(...)")
 
 
+def is_repeated_atom(k: Sym) -> bool:
+    """`<class metadata>.default_gen[$field_name] is list` - the code's own test for 'this field is repeated' """
+    return k[0] == "op" and k[1] == "is" and len(k) == 4 and k[3] == N("list") and k[2][0] == "sub" and k[2][2] == FIELD_NAME \
+        and "default_gen" in show(k[2][1])
+
+
 def rule_W2(ctx) -> None:
     """repeated-occurrence merge: (list, list) must extend, not replace"""
     mod = ctx.repo.mod(M_INIT)
@@ -823,6 +865,9 @@ def rule_W2(ctx) -> None:
                        and k[2][1] == N("list") and k[2][0][0] == "call" and dotted(k[2][0][1]).endswith("_postprocess_single")):
                     continue
                 if any(k[0] == "raises" and v for k, v in p.valuation.items()):
+                    continue
+                # the current value is a list exactly when the field is repeated: a path that decided "not repeated" is infeasible here
+                if any(not v for k, v in p.valuation.items() if is_repeated_atom(k)):
                     continue
                 packed_path = any(in_packed_loop(e.loops) for e in p.events)
                 vlist = packed_path
